@@ -218,6 +218,28 @@ func (r *faultRelay) CutAll() {
 	}
 }
 
+// ResetAll aborts every live relayed connection: both peers receive a TCP reset at once (SO_LINGER 0), so that
+// their next write fails instead of disappearing into a half-closed connection.
+func (r *faultRelay) ResetAll() {
+	r.mu.Lock()
+	ps := make([]*relayPair, 0, len(r.pairs))
+	for p := range r.pairs {
+		ps = append(ps, p)
+	}
+	r.mu.Unlock()
+	for _, p := range ps {
+		if p.ender.CompareAndSwap(0, 3) {
+			p.endedAt.Store(h.Now())
+		}
+		for _, c := range []net.Conn{p.client, p.server} {
+			if tc, ok := c.(*net.TCPConn); ok {
+				_ = tc.SetLinger(0)
+			}
+			c.Close()
+		}
+	}
+}
+
 // Live returns the currently relayed connections.
 func (r *faultRelay) Live() []*relayPair {
 	r.mu.Lock()
